@@ -6,6 +6,7 @@ import (
 	"os"
 	"strconv"
 	"strings"
+	"sync"
 )
 
 // ParseTLA parses a TLA+ value as printed by TLC (state dumps, error traces) into Go values:
@@ -288,4 +289,50 @@ func ReadDump(path string, fn func(vars map[string]interface{}) error) (int, err
 		return n, e
 	}
 	return n, nil
+}
+
+// ReadDumpParallel reads the states of a TLC dump in order and hands each to fn on one of `workers` goroutines
+// (i is the 1-based position of the state in the dump). fn must be safe for concurrent use.
+func ReadDumpParallel(path string, workers int, fn func(i int, vars map[string]interface{}) error) (int, error) {
+	if workers < 1 {
+		workers = 1
+	}
+	type item struct {
+		i    int
+		vars map[string]interface{}
+	}
+	ch := make(chan item, 4*workers)
+	errs := make(chan error, workers)
+	var wg sync.WaitGroup
+	for w := 0; w < workers; w++ {
+		wg.Add(1)
+		go func() {
+			defer wg.Done()
+			var first error
+			for it := range ch {
+				if first != nil {
+					continue
+				}
+				if err := fn(it.i, it.vars); err != nil {
+					first = err
+				}
+			}
+			errs <- first
+		}()
+	}
+	i := 0
+	n, err := ReadDump(path, func(vars map[string]interface{}) error {
+		i++
+		ch <- item{i, vars}
+		return nil
+	})
+	close(ch)
+	wg.Wait()
+	close(errs)
+	for e := range errs {
+		if e != nil && err == nil {
+			err = e
+		}
+	}
+	return n, err
 }
